@@ -86,6 +86,7 @@ pub struct Sim {
     pending_crash: Option<u32>,
     pending_fail: Option<u32>,
     pending_starve: bool,
+    pending_fsize: Option<u8>,
     had_restart: bool,
     had_crash: bool,
     /// a store returned an error since the last restart (what it left behind may surface there)
@@ -132,6 +133,7 @@ impl Sim {
             pending_crash: None,
             pending_fail: None,
             pending_starve: false,
+            pending_fsize: None,
             had_restart: false,
             had_crash: false,
             failed_store_since_restart: false,
@@ -557,6 +559,10 @@ impl Sim {
                 self.pending_starve = true;
                 None
             }
+            Op::Fsize(m) => {
+                self.pending_fsize = Some(*m);
+                None
+            }
             Op::Clock(c) => {
                 pocket_types::verif_clock::set(*c);
                 self.model.clock = *c;
@@ -609,6 +615,7 @@ impl Sim {
                 self.pending_crash = None;
                 self.pending_fail = None;
                 self.pending_starve = false;
+                self.pending_fsize = None;
             }
         }
         r
@@ -873,6 +880,49 @@ impl Sim {
         let ev = self.encoded(e);
         self.model.note_event(e);
         let map_len_before = file_len(&self.dir.join("event.map"));
+
+        // --- the kernel refuses to let the files grow (RLIMIT_FSIZE) while this store runs
+        if let Some(mode) = self.pending_fsize.take() {
+            if self.cfg.mode != Mode::Crash && self.pending_crash.is_none() {
+                let _ = self.pending_fail.take();
+                let before = self.last_obs.clone().unwrap_or_else(|| self.observe());
+                let limit = self.fsize_limit(mode);
+                self.hooks_begin(false, None);
+                let out = with_fsize_limit(limit, || real::store_event(self.store.as_ref().unwrap(), &ev));
+                let (points, _, _, _) = self.hooks_end();
+                self.stats.inc("fault/fsize_limit");
+                if let StoreOutcome::Other(err) = &out {
+                    // the engine or the file system ran out of room: the call must have changed nothing
+                    self.stats.inc("fault/fsize_limit_store_failed");
+                    self.log.push(format!("#{i} store {} under file size limit {limit} -> {}", short(&e.id), out.label()));
+                    // the failed call may have enlarged (and moved) the map before it ran out of room
+                    let grew = self.grew_since(map_len_before);
+                    if let Some(f) = self.check_refs(i, grew) {
+                        return Some(f);
+                    }
+                    let after = self.observe();
+                    let diffs = common(obs::diff_all(&before, &after, &[]));
+                    if !diffs.is_empty() {
+                        let ctx = OpCtx { kind: CtxKind::Store, event: Some(e.clone()), desc: String::new(), also: &[] };
+                        let (bi, _, mut props) = self.attribute_all(&diffs, &ctx);
+                        props.retain(|p| *p != "C12");
+                        props.insert(0, "C12");
+                        let (k, a, b) = &diffs[bi];
+                        return Some(self.finding(
+                            i,
+                            "failed-store-changed-state",
+                            &props,
+                            format!("store of {} failed with {err} (file size limit {limit}), yet probe {} changed: {} -> {} ({} probes differ)", short(&e.id), shorten_key(k), a, b, diffs.len()),
+                        ));
+                    }
+                    self.last_obs = Some(after);
+                    self.disturb("failpoint");
+                    self.failed_store_since_restart = true;
+                    return None;
+                }
+                return self.after_store(i, e, &ev, out, map_len_before, points, vec![]);
+            }
+        }
 
         // --- fail-point enumeration (C12): every fail-point occurrence of this store fails once
         let mut fail_plan: Vec<u32> = vec![];
@@ -1215,6 +1265,18 @@ impl Sim {
         None
     }
 
+    /// the limit an `fsize` modifier stands for, from the files as they are now
+    fn fsize_limit(&self, mode: u8) -> u64 {
+        let map_len = file_len(&self.dir.join("event.map"));
+        let mdb_len = file_len(&self.dir.join("lmdb").join("data.mdb"));
+        match mode % 4 {
+            0 => map_len,
+            1 => mdb_len,
+            2 => 8192,
+            _ => map_len.max(mdb_len),
+        }
+    }
+
     // ------------------------------------------------------------ remove / vanish
 
     fn do_remove(&mut self, i: usize, id: &B32) -> Option<Finding> {
@@ -1222,17 +1284,21 @@ impl Sim {
         let crash = self.cfg.mode == Mode::Crash || self.pending_crash.is_some();
         let fail_k = self.pending_fail.take();
         let starve = std::mem::take(&mut self.pending_starve) && !crash;
-        let faulted = fail_k.is_some() || starve;
+        let fsize = self.pending_fsize.take().filter(|_| !crash).map(|m| self.fsize_limit(m));
+        let faulted = fail_k.is_some() || starve || fsize.is_some();
         let before_obs = if faulted { Some(self.last_obs.clone().unwrap_or_else(|| self.observe())) } else { None };
         let (r, points, snaps, fired) = {
             let store = self.store.as_ref().unwrap();
             let held = if starve { exhaust_readers(store) } else { vec![] };
             self.hooks_begin(crash, fail_k);
-            let r = real::catch(|| store.remove_event(pocket_types::Id::from_bytes(*id)));
+            let r = with_fsize_limit(fsize.unwrap_or(u64::MAX), || real::catch(|| store.remove_event(pocket_types::Id::from_bytes(*id))));
             let (points, snaps, fired, _) = self.hooks_end();
             drop(held);
             (r, points, snaps, fired)
         };
+        if fsize.is_some() {
+            self.stats.inc("fault/fsize_limit");
+        }
         if starve {
             self.stats.inc("fault/readers_exhausted");
         }
@@ -1986,6 +2052,26 @@ fn exhaust_readers(store: &Store) -> Vec<pocket_db::heed::RoTxn<'_>> {
         }
     }
     held
+}
+
+/// Run `f` with the soft RLIMIT_FSIZE of this process at `limit` (u64::MAX: leave it alone).
+/// SIGXFSZ is ignored process-wide (main.rs), so that the refused ftruncate / write returns
+/// EFBIG instead of killing the process. Nothing but the call under test writes files meanwhile.
+pub fn with_fsize_limit<T>(limit: u64, f: impl FnOnce() -> T) -> T {
+    if limit == u64::MAX {
+        return f();
+    }
+    let mut old = libc::rlimit { rlim_cur: 0, rlim_max: 0 };
+    unsafe {
+        let _ = libc::getrlimit(libc::RLIMIT_FSIZE, &mut old);
+        let new = libc::rlimit { rlim_cur: limit.min(old.rlim_max), rlim_max: old.rlim_max };
+        let _ = libc::setrlimit(libc::RLIMIT_FSIZE, &new);
+    }
+    let r = f();
+    unsafe {
+        let _ = libc::setrlimit(libc::RLIMIT_FSIZE, &old);
+    }
+    r
 }
 
 fn fresh_event(a: u64, b: u64, c: u64) -> EvSpec {
